@@ -87,9 +87,10 @@ class M(Hooks):
             elif not to_come:
                 self.v('offered_without_cards_to_come', '',
                        f'street {s.street_index}')
-            pend = list(s.runout_count_selector_indices)
-            if any(not s.statuses[i] for i in pend):
-                self.v('offered_to_folded_player', '', f'{pend}')
+            # (a player who mucked after the offer was made stays on the
+            # list of selectors; the statement only fixes to whom the offer
+            # is made - the players remaining at the all-in - so this is
+            # not judged)
 
 
 def budget(tier):
